@@ -781,7 +781,13 @@ func foreignHolds(sc *engine.Scenario, listen string) bool {
 func checkC17(an *Analysis, add func(Violation)) {
 	// statuses handed to the event callback are results too: each carries the content of its own datagram, whatever
 	// the listener's receive buffer holds by the time the callback looks at it
-	listenerCheck(an, "C17", nil, func(v Violation) {
+	var relax func(e *model.Expect, data []byte)
+	if an.Sc.TZ != "" {
+		if loc := zones.Load(an.Sc.TZ); loc != nil {
+			relax = func(e *model.Expect, data []byte) { relaxZone(loc, model.GetStatus, e, data) }
+		}
+	}
+	listenerCheck(an, "C17", relax, func(v Violation) {
 		if strings.HasPrefix(v.Code, "event:") || v.Code == "status-changed" {
 			add(v)
 		}
